@@ -241,6 +241,27 @@ class RacePublication(Suite):
         return run_race(case)
 
 
+class RaceLateEntrant(Suite):
+    """Three first-ever requests: thread 0 is pre-empted within its first 14 router line events (it has seen the router
+    uncompiled and is on its way to the compile lock), thread 1 runs to completion (compiles and publishes), thread 0
+    resumes for k3 line events (whatever it does behind the lock - it must not disturb the published state) and is
+    pre-empted again, thread 2 then runs a complete request, thread 0 finishes.  k1 x k3 on a grid."""
+
+    name = 'race_late_entrant'
+    exhaustive = True
+    budget = {'quick': 1, 'thorough': 1}
+    case_timeout = 120
+
+    def cases(self, tier):
+        step = 16 if tier == 'quick' else 3
+        for k1 in range(1, 15):
+            for k3 in range(1, 1100, step):
+                yield {'reqs': [0, 1, 3], 'plan': [[0, k1], [1, 1000000], [0, k3], [2, 1000000]]}
+
+    def run(self, case):
+        return run_race(case)
+
+
 # ------------------------------------------------------------------ (a') first-request race while the lazy compilation FAILS
 
 
@@ -943,5 +964,5 @@ class AsgiRandom(Suite):
         return run_asgi_tasks(case)
 
 
-SUITES = [RaceSinglePreemption(), RaceDoublePreemption(), RacePublication(), RaceCompileError(), FreshProcess(), RaceRandom(), SteadyEnum(), AppLines(), AsgiEnum(), AsgiRandom()]
+SUITES = [RaceSinglePreemption(), RaceDoublePreemption(), RacePublication(), RaceLateEntrant(), RaceCompileError(), FreshProcess(), RaceRandom(), SteadyEnum(), AppLines(), AsgiEnum(), AsgiRandom()]
 KNOWN = {}
